@@ -34,6 +34,12 @@ Proof.
   - exact D.
 Qed.
 
+(* every declared field is either on the wire (on both sides, by schemas_agree) or one of the reviewed
+   recomputed fields: `serialize` skips exactly the fields `deserialize` recomputes *)
+Lemma unwritten_fields_are_the_rebuilt_ones :
+  fields_table_eqb unwritten_fields rebuilt_fields && fields_table_eqb rebuilt_fields expected_rebuilt = true.
+Proof. vm_compute. reflexivity. Qed.
+
 (* ---------------------------------------------------------------- header + file *)
 Lemma header_agree :
   bytes_eqb wire_magic_write wire_magic_read && bytes_eqb scanner_kind_write scanner_kind_read
